@@ -173,10 +173,10 @@ FULL = (['fwd %d %d' % (i, o) for i in (0, 1) for o in (0, 1)] + ['fwd 0 9', 'fw
         ['del %d %d' % (i, o) for i in (0, 1) for o in (0, 1)] + ['del 9 1', 'del 0 9'] +
         ['sink 0 0', 'sink 1 0', 'sink 0 1', 'sink 0 N', 'sink 9 0', 'source 0 0', 'source 1 0', 'source 1 1', 'source 1 N', 'source 9 0',
          'get 0', 'get 1', 'get 9', 'send 0 5', 'send 1 N', 'send 9 5', 'spin 1', 'spin 2', 'open 0', 'open 1', 'close 0', 'close 1', 'close 9',
-         'inject 0 7', 'inject 0 N', 'inject 1 8'])
+         'inject 0 7', 'inject 0 N', 'inject 1 8', 'inject 0 0'])
 REDUCED = ['fwd 0 1', 'fwd 0 0', 'fwd 1 0', 'del 0 1', 'del 0 0', 'sink 0 0', 'sink 0 1', 'source 1 0', 'get 0', 'get 1', 'spin 1',
-           'open 0', 'close 1', 'inject 0 7', 'inject 0 N', 'inject 1 8']
-STARTS = [[], ['open 0', 'open 1', 'inject 0 5', 'inject 0 N', 'inject 0 6', 'inject 1 4'],
+           'open 0', 'close 1', 'inject 0 7', 'inject 0 N', 'inject 1 8', 'inject 0 0']
+STARTS = [[], ['open 0', 'open 1', 'inject 0 5', 'inject 0 N', 'inject 0 0', 'inject 0 6', 'inject 1 4'],
           ['open 0', 'open 1', 'fwd 0 1', 'sink 0 0', 'source 1 0', 'inject 0 5', 'inject 0 6', 'inject 1 4', 'inject 1 N']]
 
 
@@ -291,7 +291,7 @@ def udp_history(res, seed):
             k = script[n] if n < len(script) else rr.choice(['send', 'send', 'poll-B', 'poll-B', 'poll-N'])
             ops.append('%s#%d' % (k, n))
             if k == 'send':
-                m = 'm%d' % n
+                m = '' if n % 5 == 0 else 'm%d' % n        # an empty datagram is a message too
                 c.sendData('A', m); pend_b.append(m)
                 continue
             if k == 'poll-B':
@@ -401,7 +401,7 @@ def run(res, tier, seed, driver_ok):
             elif k in ('open', 'close'):
                 ops.append('%s %d' % (k, nm()))
             else:
-                ops.append('inject %d %s' % (rnd.randrange(n), rnd.choice(['N', str(rnd.randint(1, 99)), str(rnd.randint(1, 99))])))
+                ops.append('inject %d %s' % (rnd.randrange(n), rnd.choice(['N', '0', str(rnd.randint(1, 99)), str(rnd.randint(1, 99))])))      # '0': a message that is falsy in Python is still a message
         hists.append((n, ops))
     nproc = min(16, os.cpu_count() or 1)
     chunk = (len(hists) + nproc * 4 - 1) // (nproc * 4)
